@@ -153,6 +153,17 @@ PROPS = {
                        "completeness of the checker in general (value-level rules of narrow, e.g. `[1] + [\"a\"]`).",
         "assumptions": ["runtime kind -> Shape variant map of impl DeriveShape for Value (List->List, Tuple->Tuple, Str->Str)"],
     },
+    "C17": {
+        "module": "c17",
+        "explanation": "R36: who-may-write on OpsMap.ops / OpsMap.pos (paired API only). R37: provenance of the position of every "
+                       "emitted opcode (all OpsMap::push sites of the translator) from the AST parameter, no Position::new. R38: every "
+                       "fcall_impl call site (callbacks of map/filter/reduce, ordinary calls) and the module body run record the "
+                       "caller's position on the Err edge. R39: provenance of the position of every Error::new in vm.rs/runtime.rs "
+                       "from an operand / parameter / op pointer; inventory of Position::new users. R92: line/column/offset wiring "
+                       "from the input iterator through parser errors to the printed diagnostic. Not decided: that the reported line "
+                       "lies inside the right statement for a given input; errors inside imported files.",
+        "assumptions": ["abortable_parser's line()/column() count from the start of the input"],
+    },
 }
 
 
